@@ -291,7 +291,7 @@ func C20(c *vh.Ctx) {
 		}
 		return
 	}
-	c.Rule("every spec graph over node names {start, a, b}: (i) two nodes, each with action {none, native, ecmascript source, goja source}, branching type {message (no action), bindings}, and a branch list of 0-2 branches over target {start, a, b, missing, @v, \"\"} x guard {none, ecmascript source} (plus native / goja guards) x pattern {none, map}; (ii) three nodes with 0-1 branches each; (iii) a fixed three-node graph whose two free node names range over a list of 30 names (dot keywords, names with spaces, colons, quotes, angle brackets, ampersands, brackets, comment openers, backslashes, format verbs) and whose patterns range over 9 JSON contents (angle brackets, ampersands, quotes, markup, a bare string, arrays, one long enough to be indented); branch lists also as empty-but-not-nil lists; compiled; oracle: Analyze's sets and counts recomputed from the graph, Dot output parsed with the grammar of the dot language (quoted and HTML-like strings, keywords, ports) and matched to the spec graph under a searched correspondence of names (each spec node exactly one node statement whose well-formed label shows its name, extra nodes only as placeholders for branch targets, edge multiset = image of the branch multiset); Mermaid output split into statements and read back (node texts with entities decoded = names, edges through node ids = branches), no panic, no error. non-trivial = more than one node.")
+	c.Rule("every spec graph over node names {start, a, b}: (i) two nodes, each with action {none, native, ecmascript source, goja source}, branching type {message (no action), bindings}, and a branch list of 0-2 branches over target {start, a, b, missing, @v, \"\"} x guard {none, ecmascript source} (plus native / goja guards) x pattern {none, map}; (ii) three nodes with 0-1 branches each; (iii) a fixed three-node graph whose two free node names range over a list of 30 names (dot keywords, names with spaces, colons, quotes, angle brackets, ampersands, brackets, comment openers, backslashes, format verbs) and whose patterns range over 9 JSON contents (angle brackets, ampersands, quotes, markup, a bare string, arrays, one long enough to be indented); branch lists also as empty-but-not-nil lists; (iv) three-node graphs without any node called start, over names that sort before and after \"start\"; compiled; oracle: Analyze's sets and counts recomputed from the graph, Dot output parsed with the grammar of the dot language (quoted and HTML-like strings, keywords, ports) and matched to the spec graph under a searched correspondence of names (each spec node exactly one node statement whose well-formed label shows its name, extra nodes only as placeholders for branch targets, edge multiset = image of the branch multiset); Mermaid output split into statements and read back (node texts with entities decoded = names, edges through node ids = branches), no panic, no error. non-trivial = more than one node.")
 	targets := []string{"start", "a", "b", "missing", "@v", ""}
 	var kinds []gBranch
 	for _, t := range targets {
@@ -376,6 +376,7 @@ func C20(c *vh.Ctx) {
 			}
 		}
 	}
+	c20NoStart(c, one, &idx)
 	// (iii) node names and patterns of any content: a three-node graph start -> X -> Y (+ a branch to a
 	// missing target and one back to start), X and Y over the name list, the patterns over the pattern list
 	for i, x := range c20Names {
@@ -404,6 +405,34 @@ func C20(c *vh.Ctx) {
 					if c.WantSample() && k == 1 && act == "" {
 						c.Sample(cs)
 					}
+				}
+			}
+		}
+	}
+}
+
+// (iv) specifications without a node called "start" (nothing obliges a spec to have one), node names sorting
+// before and after "start"
+func c20NoStart(c *vh.Ctx, one func(cs c20Case), idx *uint64) {
+	names := []string{"begin", "stop", "wait", "work", "x1", "a", "starting", "Start"}
+	for _, s0 := range names {
+		for _, x := range names {
+			for _, y := range names {
+				if s0 == x || s0 == y || x == y {
+					continue
+				}
+				for _, act := range []string{"", "native"} {
+					*idx++
+					if !c.Mine(*idx) || c.Expired() {
+						continue
+					}
+					one(c20Case{
+						Rename: map[string]string{"start": s0, "a": x, "b": y},
+						Nodes: map[string]gNode{
+							"start": {Type: "message", Branches: []gBranch{{Target: "a", Pattern: true}, {Target: "b"}}},
+							"a":     {Action: act, Type: "bindings", Branches: []gBranch{{Target: "b"}, {Target: "missing"}}},
+							"b":     {NoBr: true},
+						}})
 				}
 			}
 		}
